@@ -402,3 +402,345 @@ Section Step.
     unfold mu, recv_init; cbn [l_tr l_read]. destruct (t_rest t); cbn; lia.
   Qed.
 End Step.
+
+(* ------------------------------------------------------------------ safety: any transport *)
+
+(** The Read calls of one [Recv] on a stream whose first item announces [N] bytes in all:
+    each asks for exactly what is missing of the header (while fewer than 8 bytes have
+    been received) or of the item (afterwards), never for nothing. [c] = bytes received
+    before the call. *)
+Fixpoint trace_ok (N c : Z) (tr : list (Z * Z)) : Prop :=
+  match tr with
+  | [] => True
+  | (w, n) :: r => w = (if c <? 8 then 8 else N) - c /\ 0 < w /\ 0 <= n <= w /\ trace_ok N (c + n) r
+  end.
+
+Lemma trace_ok_app N a : forall c w n,
+  trace_ok N c a -> w = (if c + tsum a <? 8 then 8 else N) - (c + tsum a) -> 0 < w -> 0 <= n <= w ->
+  trace_ok N c (a ++ [(w, n)]).
+Proof.
+  induction a as [|[w0 n0] a IH]; intros c w n Ha Hw Hp Hn; cbn [app tsum trace_ok] in *.
+  - rewrite Z.add_0_r in Hw. repeat split; try lia.
+  - destruct Ha as (H1 & H2 & H3 & H4). repeat split; try lia.
+    apply IH; try assumption. rewrite Hw. replace (c + n0 + tsum a) with (c + (n0 + tsum a)) by lia. reflexivity.
+Qed.
+
+Section Safety.
+  Variable M : Type.
+  Variable um : list Z -> res M.
+  Variable W : Z.
+  Variable max : Z.
+  (** [D]: the bytes the transport holds when [Recv] is called. [N]: the size announced by
+      their first 8 bytes (any number >= 8 when there are fewer than 8). *)
+  Variable D : list Z.
+  Variable N : Z.
+  Hypothesis HN : forall b x, D = b ++ x -> 8 <= len b -> needed_bytes W b = N.
+  Hypothesis HN8 : 8 <= N.
+
+  Notation recv_step := (recv_step M um W max).
+  Notation recv_loop := (recv_loop M um W max).
+  Notation recv := (recv M um W max).
+
+  Definition oversize : Prop := 0 < max /\ max < N.
+
+  Definition inv (s : lstate) : Prop :=
+    inv0 W s /\
+    D = l_buf s ++ t_rest (l_tr s) /\
+    l_read s < l_need s /\
+    (l_cap s = buf0 \/ (l_cap s = N /\ buf0 < N /\ 8 <= l_read s)) /\
+    (8 <= l_read s -> ~ oversize) /\
+    (0 < l_read s -> 0 < max -> 8 <= max) /\
+    trace_ok N 0 (l_trace s) /\ tsum (l_trace s) = l_read s.
+
+  (** What a finished [Recv] guarantees. [p]: the bytes it took from the transport. *)
+  Definition post (r : rres M) : Prop :=
+    r_out r <> RPanic /\
+    exists p, D = p ++ t_rest (r_tr r) /\ consumed r = len p /\
+      (len p <= 8 \/ len p <= N) /\
+      (oversize -> len p <= 8) /\
+      (forall x, r_out r = RMsg x -> len p = N /\ x = um (take N D) /\ ~ oversize) /\
+      (r_out r = RTooBig -> 0 < max /\ (max < 8 \/ (8 <= len p /\ max < N))) /\
+      (r_cap r = buf0 \/ (r_cap r = N /\ buf0 < N /\ 8 <= len p /\ ~ oversize)) /\
+      trace_ok N 0 (r_trace r).
+
+  Lemma need_of_inv s : inv s -> l_need s = if l_read s <? 8 then 8 else N.
+  Proof.
+    intros ((Hr & Hn) & HD & _). rewrite Hn.
+    destruct (Z.ltb_spec (l_read s) 8) as [H|H].
+    - apply needed_bytes_short. lia.
+    - apply (HN _ _ HD). lia.
+  Qed.
+
+  Lemma inv_init t : t_rest t = D -> inv (recv_init t).
+  Proof.
+    intros Ht. unfold inv, recv_init; cbn [l_tr l_buf l_read l_need l_cap l_trace].
+    split; [apply inv0_init|]. cbn [app tsum trace_ok]. repeat split; try lia; auto.
+  Qed.
+
+  Lemma step_safe s : inv s ->
+    match recv_step s with
+    | Done _ r => post r
+    | Continue _ s' => inv s'
+    end.
+  Proof.
+    intros Hinv. pose proof (need_of_inv s Hinv) as Hneed.
+    destruct Hinv as (Hi0 & HD & Hlt & Hcap & Hov & Hm8 & Htr & Hsum).
+    destruct (tr_read (l_tr s) (l_need s - l_read s)) as [[chunk err] t'] eqn:Ht.
+    rewrite (recv_step_simpl M um W max s chunk err t' Hi0 Ht).
+    destruct Hi0 as [Hr Hn].
+    pose proof (tr_read_gen _ _ _ _ _ Ht) as (Hsplit & _ & Hcw & _).
+    pose proof (st_len_nonneg chunk) as Hc0.
+    pose proof (st_len_nonneg (l_buf s)) as Hb0.
+    set (cap' := if l_need s >? l_cap s then grow_cap (l_cap s) (l_need s) else l_cap s).
+    assert (Hcap' : l_need s <= cap' /\ (cap' = buf0 \/ (cap' = N /\ buf0 < N /\ 8 <= l_read s))).
+    { unfold cap', grow_cap, buf0 in *. destruct (Z.gtb_spec (l_need s) (l_cap s)) as [Hg|Hg].
+      - destruct Hcap as [Hc|(Hc & Hc2 & Hc3)].
+        + rewrite Hc in *. destruct (Z.ltb_spec (l_read s) 8); [lia|]. split; [lia|]. right. lia.
+        + destruct (Z.ltb_spec (l_read s) 8); lia.
+      - split; [lia|]. exact Hcap. }
+    destruct Hcap' as [Hncap Hcap'].
+    assert (HD' : D = (l_buf s ++ chunk) ++ t_rest t') by (rewrite <- app_assoc, <- Hsplit; exact HD).
+    assert (Hlen' : len (l_buf s ++ chunk) = l_read s + len chunk) by (rewrite st_len_app; lia).
+    assert (Hneed' : needed_bytes W (l_buf s ++ chunk) = if l_read s + len chunk <? 8 then 8 else N).
+    { destruct (Z.ltb_spec (l_read s + len chunk) 8) as [H|H].
+      - apply needed_bytes_short. lia.
+      - apply (HN _ _ HD'). lia. }
+    assert (Htrace : trace_ok N 0 (l_trace s ++ [(l_need s - l_read s, len chunk)])).
+    { apply trace_ok_app; try assumption; try lia. rewrite Hsum, Z.add_0_l. rewrite Hneed. reflexivity. }
+    assert (Hts : tsum (l_trace s ++ [(l_need s - l_read s, len chunk)]) = l_read s + len chunk).
+    { rewrite tsum_app. cbn [tsum]. lia. }
+    unfold step_simpl. fold cap'.
+    destruct (Z.gtb_spec (l_read s) (l_need s)) as [?|_]; [lia|].
+    destruct (Z.gtb_spec (l_need s) cap') as [?|_]; [lia|]. cbn [orb].
+    destruct (Z.eqb_spec (len chunk) 0) as [Hz|Hnz].
+    - (* nothing was read: an error is returned *)
+      assert (Hch : chunk = []) by (apply st_len_zero; exact Hz). subst chunk.
+      rewrite app_nil_r in HD'. rewrite Z.add_0_r in Hts.
+      assert (Hpost : forall o, o <> RPanic -> (forall x, o <> RMsg x) -> o <> RTooBig ->
+                post (mkRes o t' cap' (l_trace s ++ [(l_need s - l_read s, len (@nil Z))]))).
+      { intros o Ho1 Ho2 Ho3. unfold post; cbn [r_out r_tr r_cap r_trace]. split; [exact Ho1|].
+        exists (l_buf s). rewrite consumed_tsum; cbn [r_trace]. rewrite Hts.
+        split; [exact HD'|]. split; [exact Hr|].
+        split; [destruct (Z.ltb_spec (l_read s) 8); lia|].
+        split; [intros Hos; destruct (Z.ltb_spec (l_read s) 8) as [?|Hh]; [lia | exfalso; exact (Hov Hh Hos)]|].
+        split; [intros x Hx; exfalso; exact (Ho2 x Hx)|].
+        split; [intros Hx; exfalso; exact (Ho3 Hx)|].
+        split; [|exact Htrace].
+        destruct Hcap' as [?|(Hc1 & Hc2 & Hc3)]; [left; assumption|].
+        right. repeat split; try assumption; try lia. apply Hov. exact Hc3. }
+      destruct err; apply Hpost; discriminate.
+    - assert (Hcpos : 0 < len chunk) by lia.
+      rewrite Hneed'. rewrite Hneed in *.
+      (* facts about where we are *)
+      assert (Hrd' : l_read s + len chunk <= (if l_read s <? 8 then 8 else N)) by lia.
+      assert (Hpost : forall o,
+                o <> RPanic ->
+                (forall x, o = RMsg x -> l_read s + len chunk = N /\ x = um (l_buf s ++ chunk) /\ ~ oversize) ->
+                (o = RTooBig -> 0 < max /\ (if l_read s + len chunk <? 8 then 8 else N) > max) ->
+                (8 <= l_read s + len chunk -> 8 <= l_read s \/ ~ oversize \/ o = RTooBig) ->
+                post (mkRes o t' cap' (l_trace s ++ [((if l_read s <? 8 then 8 else N) - l_read s, len chunk)]))).
+      { intros o Ho1 Ho2 Ho3 Ho4. unfold post; cbn [r_out r_tr r_cap r_trace]. split; [exact Ho1|].
+        exists (l_buf s ++ chunk). rewrite consumed_tsum; cbn [r_trace]. rewrite Hts, Hlen'.
+        split; [exact HD'|]. split; [reflexivity|].
+        split; [destruct (Z.ltb_spec (l_read s) 8); lia|].
+        split; [intros Hos; destruct (Z.ltb_spec (l_read s) 8) as [?|Hh]; [lia | exfalso; exact (Hov Hh Hos)]|].
+        split.
+        { intros x Hx. destruct (Ho2 x Hx) as (E1 & E2 & E3). split; [exact E1|]. split; [|exact E3].
+          rewrite E2. f_equal. rewrite HD'. rewrite <- E1, <- Hlen'. symmetry. apply st_take_app_exact. }
+        split.
+        { intros Hx. destruct (Ho3 Hx) as [Hm Hgt]. split; [exact Hm|].
+          destruct (Z.ltb_spec (l_read s + len chunk) 8); [left; lia | right; lia]. }
+        split; [|exact Htrace].
+        destruct Hcap' as [?|(Hc1 & Hc2 & Hc3)]; [left; assumption|].
+        right. repeat split; try assumption; try lia. apply Hov. exact Hc3. }
+      destruct ((0 <? max) && ((if l_read s + len chunk <? 8 then 8 else N) >? max)) eqn:Hbig.
+      + (* too big *)
+        apply andb_true_iff in Hbig. destruct Hbig as [Hb1 Hb2].
+        apply Z.ltb_lt in Hb1. apply Z.gtb_lt in Hb2.
+        apply Hpost; try discriminate.
+        * intros _. split; lia.
+        * intros _. right. right. reflexivity.
+      + assert (Hnb : ~ (0 < max /\ max < (if l_read s + len chunk <? 8 then 8 else N))).
+        { intros [Hb1 Hb2]. apply andb_false_iff in Hbig. destruct Hbig as [Hb|Hb].
+          - apply Z.ltb_ge in Hb. lia.
+          - destruct (Z.gtb_spec (if l_read s + len chunk <? 8 then 8 else N) max); [discriminate | lia]. }
+        destruct (Z.leb_spec (if l_read s + len chunk <? 8 then 8 else N) (l_read s + len chunk)) as [Hfull|Hmore].
+        * (* the message is complete *)
+          assert (HNr : l_read s + len chunk = N /\ (if l_read s + len chunk <? 8 then 8 else N) = N).
+          { destruct (Z.ltb_spec (l_read s + len chunk) 8); destruct (Z.ltb_spec (l_read s) 8); lia. }
+          destruct HNr as [HNr HNe]. rewrite HNe in *.
+          destruct (Z.ltb_spec N 0) as [?|_]; [lia|].
+          destruct (Z.gtb_spec N cap') as [Hbad|_].
+          { exfalso. destruct (Z.ltb_spec (l_read s) 8); lia. }
+          cbn [orb]. apply Hpost; try discriminate.
+          -- intros x Hx. inversion Hx; subst x. split; [exact HNr|]. split.
+             ++ f_equal. apply st_take_all. lia.
+             ++ unfold oversize. exact Hnb.
+          -- intros _. right. left. unfold oversize. exact Hnb.
+        * destruct err as [e|].
+          -- apply Hpost; try discriminate.
+             intros H8. destruct (Z.ltb_spec (l_read s + len chunk) 8); [lia|]. right. left. exact Hnb.
+          -- (* next iteration *)
+             unfold inv, inv0; cbn [l_tr l_buf l_read l_need l_cap l_trace].
+             rewrite Hneed'. rewrite Hlen'. repeat split; try assumption; try lia.
+             ++ intros H8. destruct (Z.ltb_spec (l_read s + len chunk) 8); [lia|]. exact Hnb.
+             ++ intros _ Hmx. destruct (Z.ltb_spec (l_read s + len chunk) 8); lia.
+  Qed.
+
+  Lemma loop_safe fuel : forall s, inv s -> (mu s < fuel)%nat -> post (recv_loop fuel s).
+  Proof.
+    induction fuel as [|f IH]; intros s Hinv Hm; [lia|].
+    cbn [Stream.recv_loop]. pose proof (step_safe s Hinv) as Hs.
+    destruct (recv_step s) as [r|s'] eqn:Hstep; [exact Hs|].
+    apply IH; [exact Hs|].
+    pose proof (step_measure M um W max s s' (proj1 Hinv) Hstep). lia.
+  Qed.
+
+  (** One [Recv] on a transport holding [D], whatever its answers. *)
+  Lemma recv_safe t : t_rest t = D -> post (recv t).
+  Proof.
+    intros Ht. unfold Stream.recv. apply loop_safe; [apply inv_init; exact Ht|].
+    unfold mu, recv_init; cbn [l_tr l_read]. destruct (t_rest t); cbn; lia.
+  Qed.
+End Safety.
+
+(* ------------------------------------------------------------------ progress: faithful transports *)
+
+Section Progress.
+  Variable M : Type.
+  Variable um : list Z -> res M.
+  Variable W : Z.
+  Variable max : Z.
+  Variable D : list Z.
+  Variable N : Z.
+  Hypothesis HN : forall b x, D = b ++ x -> 8 <= len b -> needed_bytes W b = N.
+  Hypothesis HN8 : 8 <= N.
+  Hypothesis Hmax8 : 0 < max -> 8 <= max.   (* a configured limit admits at least a header *)
+  Variable e : Z.                            (* the transport's end error *)
+
+  Notation recv_step := (recv_step M um W max).
+  Notation recv_loop := (recv_loop M um W max).
+  Notation recv := (recv M um W max).
+  Notation oversize := (oversize max N).
+  Notation inv := (inv W max D N).
+
+  (** The result of [Recv] is determined by the stream alone. *)
+  Definition spec (r : rres M) : Prop :=
+    (8 <= len D -> oversize -> r_out r = RTooBig) /\
+    (~ oversize -> N <= len D ->
+       r_out r = RMsg (um (take N D)) /\ t_rest (r_tr r) = drop N D /\
+       faithful (t_sched (r_tr r)) /\ t_end (r_tr r) = e) /\
+    (len D < N -> (len D < 8 \/ ~ oversize) -> r_out r = RErr e /\ t_rest (r_tr r) = []).
+
+  Lemma step_progress s :
+    inv s -> faithful (t_sched (l_tr s)) -> t_end (l_tr s) = e ->
+    match recv_step s with
+    | Done _ r => spec r
+    | Continue _ s' => faithful (t_sched (l_tr s')) /\ t_end (l_tr s') = e
+    end.
+  Proof.
+    intros Hinv Hf He. pose proof (need_of_inv W max D N HN s Hinv) as Hneed.
+    destruct Hinv as (Hi0 & HD & Hlt & Hcap & Hov & Hm8 & Htr & Hsum).
+    destruct (tr_read (l_tr s) (l_need s - l_read s)) as [[chunk err] t'] eqn:Ht.
+    rewrite (recv_step_simpl M um W max s chunk err t' Hi0 Ht).
+    destruct Hi0 as [Hr Hn].
+    pose proof (tr_read_gen _ _ _ _ _ Ht) as (Hsplit & Hend & Hcw & _).
+    assert (Hw : 0 < l_need s - l_read s) by lia.
+    pose proof (tr_read_faithful _ _ _ _ _ Ht Hw Hf) as (Hf' & Hempty & Hnonempty).
+    rewrite He in *.
+    pose proof (st_len_nonneg chunk) as Hc0.
+    pose proof (st_len_nonneg (l_buf s)) as Hb0.
+    pose proof (st_len_nonneg (t_rest t')) as Hr0.
+    set (cap' := if l_need s >? l_cap s then grow_cap (l_cap s) (l_need s) else l_cap s).
+    assert (Hncap : l_need s <= cap').
+    { unfold cap', grow_cap, buf0 in *. destruct (Z.gtb_spec (l_need s) (l_cap s)) as [Hg|Hg]; [|lia].
+      destruct Hcap as [Hc|(Hc & Hc2 & Hc3)]; [rewrite Hc; lia|].
+      destruct (Z.ltb_spec (l_read s) 8); lia. }
+    assert (HD' : D = (l_buf s ++ chunk) ++ t_rest t') by (rewrite <- app_assoc, <- Hsplit; exact HD).
+    assert (Hlen' : len (l_buf s ++ chunk) = l_read s + len chunk) by (rewrite st_len_app; lia).
+    assert (HlenD : len D = l_read s + len chunk + len (t_rest t')) by (rewrite HD', st_len_app, Hlen'; lia).
+    assert (Hneed' : needed_bytes W (l_buf s ++ chunk) = if l_read s + len chunk <? 8 then 8 else N).
+    { destruct (Z.ltb_spec (l_read s + len chunk) 8) as [H|H].
+      - apply needed_bytes_short. lia.
+      - apply (HN _ _ HD'). lia. }
+    unfold step_simpl. fold cap'.
+    destruct (Z.gtb_spec (l_read s) (l_need s)) as [?|_]; [lia|].
+    destruct (Z.gtb_spec (l_need s) cap') as [?|_]; [lia|]. cbn [orb].
+    (* an error result at a point where the stream is drained *)
+    assert (Hdrained : forall tr', t_rest t' = [] -> l_read s + len chunk < (if l_read s + len chunk <? 8 then 8 else N) ->
+              (8 <= l_read s + len chunk -> ~ oversize) ->
+              spec (mkRes (RErr e) t' cap' tr')).
+    { intros tr' Hd Hshort Hno. rewrite Hd in HlenD. rewrite st_len_nil in HlenD.
+      unfold spec; cbn [r_out r_tr]. split; [|split].
+      - intros H8 Hos. exfalso. apply Hno; [lia | exact Hos].
+      - intros _ HNle. exfalso. destruct (Z.ltb_spec (l_read s + len chunk) 8); lia.
+      - intros _ _. split; [reflexivity | exact Hd]. }
+    destruct (Z.eqb_spec (len chunk) 0) as [Hz|Hnz].
+    - destruct (t_rest (l_tr s)) as [|x0 xs] eqn:Hrest.
+      + destruct (Hempty eq_refl) as [Hch Herr]. subst chunk err.
+        apply Hdrained.
+        * cbn [app] in Hsplit. symmetry. exact Hsplit.
+        * rewrite st_len_nil, Z.add_0_r. rewrite Hneed in Hlt. exact Hlt.
+        * rewrite st_len_nil, Z.add_0_r. exact Hov.
+      + exfalso. assert (Hne : x0 :: xs <> []) by discriminate. destruct (Hnonempty Hne) as [H1 _]. lia.
+    - rewrite Hneed'. rewrite Hneed in *.
+      assert (Hrd' : l_read s + len chunk <= (if l_read s <? 8 then 8 else N)) by lia.
+      destruct ((0 <? max) && ((if l_read s + len chunk <? 8 then 8 else N) >? max)) eqn:Hbig.
+      + apply andb_true_iff in Hbig. destruct Hbig as [Hb1 Hb2].
+        apply Z.ltb_lt in Hb1. apply Z.gtb_lt in Hb2. specialize (Hmax8 Hb1).
+        assert (Hos : oversize) by (unfold StreamProofs.oversize; destruct (Z.ltb_spec (l_read s + len chunk) 8); lia).
+        unfold spec; cbn [r_out r_tr]. split; [|split].
+        * intros _ _. reflexivity.
+        * intros Hno _. exfalso. exact (Hno Hos).
+        * intros Hshort [H8|Hno]; [|exfalso; exact (Hno Hos)].
+          exfalso. destruct (Z.ltb_spec (l_read s + len chunk) 8); lia.
+      + assert (Hnb : ~ (0 < max /\ max < (if l_read s + len chunk <? 8 then 8 else N))).
+        { intros [Hb1 Hb2]. apply andb_false_iff in Hbig. destruct Hbig as [Hb|Hb].
+          - apply Z.ltb_ge in Hb. lia.
+          - destruct (Z.gtb_spec (if l_read s + len chunk <? 8 then 8 else N) max); [discriminate | lia]. }
+        destruct (Z.leb_spec (if l_read s + len chunk <? 8 then 8 else N) (l_read s + len chunk)) as [Hfull|Hmore].
+        * assert (HNr : l_read s + len chunk = N /\ (if l_read s + len chunk <? 8 then 8 else N) = N).
+          { destruct (Z.ltb_spec (l_read s + len chunk) 8); destruct (Z.ltb_spec (l_read s) 8); lia. }
+          destruct HNr as [HNr HNe]. rewrite HNe in *.
+          destruct (Z.ltb_spec N 0) as [?|_]; [lia|].
+          destruct (Z.gtb_spec N cap') as [Hbad|_].
+          { exfalso. destruct (Z.ltb_spec (l_read s) 8); lia. }
+          cbn [orb]. unfold spec; cbn [r_out r_tr]. split; [|split].
+          -- intros _ Hos. exfalso. apply Hnb. exact Hos.
+          -- intros _ _. split; [|split; [|split]].
+             ++ f_equal. f_equal. rewrite HD'. rewrite <- HNr, <- Hlen'. rewrite st_take_app_exact.
+                apply st_take_all. lia.
+             ++ rewrite HD'. rewrite <- HNr, <- Hlen'. symmetry. apply st_drop_app_exact.
+             ++ exact Hf'.
+             ++ exact Hend.
+          -- intros Hshort _. exfalso. lia.
+        * destruct err as [e'|].
+          -- destruct (t_rest (l_tr s)) as [|x0 xs] eqn:Hrest.
+             { destruct (Hempty eq_refl) as [Hch _]. subst chunk. rewrite st_len_nil in Hnz. lia. }
+             assert (Hne : x0 :: xs <> []) by discriminate.
+             destruct (Hnonempty Hne) as [_ [Habs|[He' Hd]]]; [discriminate|].
+             inversion He'; subst e'. apply Hdrained; [exact Hd | exact Hmore |].
+             intros H8. destruct (Z.ltb_spec (l_read s + len chunk) 8); [lia | exact Hnb].
+          -- cbn [l_tr]. split; [exact Hf' | exact Hend].
+  Qed.
+
+  Lemma loop_progress fuel : forall s,
+    inv s -> faithful (t_sched (l_tr s)) -> t_end (l_tr s) = e -> (mu s < fuel)%nat ->
+    spec (recv_loop fuel s).
+  Proof.
+    induction fuel as [|f IH]; intros s Hinv Hf He Hm; [lia|].
+    cbn [Stream.recv_loop].
+    pose proof (step_progress s Hinv Hf He) as Hp.
+    pose proof (step_safe M um W max D N HN HN8 s Hinv) as Hs.
+    destruct (recv_step s) as [r|s'] eqn:Hstep; [exact Hp|].
+    destruct Hp as [Hf' He']. apply IH; try assumption.
+    pose proof (step_measure M um W max s s' (proj1 Hinv) Hstep). lia.
+  Qed.
+
+  Lemma recv_progress t : t_rest t = D -> faithful (t_sched t) -> t_end t = e -> spec (recv t).
+  Proof.
+    intros Ht Hf He. unfold Stream.recv. apply loop_progress; try assumption.
+    - apply inv_init. exact Ht.
+    - unfold mu, recv_init; cbn [l_tr l_read]. destruct (t_rest t); cbn; lia.
+  Qed.
+End Progress.
